@@ -266,6 +266,11 @@ MEDDLY::node_address MEDDLY::hole_manager<INT>::allocateFromArray(size_t numSlot
     bool ok = false;
 
     if (0==data_alloc) {
+#if defined(MEDDLY_VERIF) && defined(MEDDLY_VERIF_ARENA)
+      // verification hook: small initial arena so that bounded model
+      // checking sees a small array; growth logic below is unchanged
+      if (numSlots < MEDDLY_VERIF_ARENA/2) ok = resize(MEDDLY_VERIF_ARENA); else
+#endif
       if (numSlots < 512) ok = resize(1024);
       else                ok = resize(2*numSlots);
     } else {
